@@ -561,6 +561,12 @@ def scripts_c09(tier, rng):
     for i, b in enumerate(live):
         b = [l if not l.startswith("cfg") else "cfg mr=3 ci=0 cc=0" for l in b]
         named2.append((f"c09l{i}", b + ["flush 9000", "widle", "drain"]))
+    # the same with records larger than 1 MiB (a read path that treats large records differently)
+    for j in range(1 if tier == "quick" else 4):
+        sz = 1048577 + rng.below(200000)
+        named2.append((f"c09lbig{j}", ["cfg mr=3 ci=0 cc=0", "open",
+                                       "app " + " ".join(f"1,{x},x{sz}:{rng.below(250)}" for x in range(4)),
+                                       "flush 9000", "widle", "drain"]))
     lays2 = layouts(named2)
     for name, pre in named2:
         lay = lays2.get(name, [])
@@ -685,7 +691,7 @@ PROPS.update({
     "C10": dict(theorems=['c10_encRecord_length_pos', 'parse_encAll', 'parse_cut', 'parse_cut_at', 'parse_zero_tail', 'c10_crc32_zeros_ne_zero', 'c10_clean_open', 'c10_cut_truncate', 'c10_zero_truncate', 'c10_open_truncates_and_creates', "c10_open_single_chunk'", 'c10_open_single_chunk', 'parseChunk_encAll_append', 'parseChunk_canon', 'parseLoop_fuel', 'decRecord_zeros_eof', 'decRecord_zeros_invalid', 'openChunk_of_parse'],
                 gen=scripts_c10, project=proj_recovery, oracle=oracle_c10, nontrivial=lambda s: len(s) > 6,
                 explanation="torn / zero tail", assumptions=OS_ASSUMPTIONS),
-    "C09": dict(theorems=['c09_checksum_mismatch_invalid', 'c09_invalid_reported', 'c09_wrong_sum_is_invalid', 'c09_wrong_sum_chunk', 'mutated_length', 'c09_chunk_byte_altered', 'c09_chunk_byte_altered_not_original', 'c09_missing_middle_chunk', 'c09_missing_middle_chunk_two', 'c09_open_gap', 'decRecord_bad_sum', 'openLoop_gap', 'openLoop_clean_step'],
+    "C09": dict(modules=['C09', 'C09Crc', 'C09Sys'], theorems=['c09_sys_rm_spec', 'c09_sys_missing_middle_chunk_inv', 'c09_sys_missing_middle_chunk', 'c09_sys_missing_middle_chunk_reach', 'c09_valuePos_spec', 'c09_valuePos_append', 'c09_value_byte_decode_invalid', 'c09_chunk_value_byte_invalid', 'c09_sys_setByte_spec', 'c09_sys_value_byte_altered_inv', 'c09_sys_value_byte_altered', 'c09_sys_value_byte_altered_reach', 'crc_onebyteC9S', 'encTB_setC9S', 'c09_checksum_mismatch_invalid', 'c09_invalid_reported', 'c09_wrong_sum_is_invalid', 'c09_wrong_sum_chunk', 'mutated_length', 'c09_chunk_byte_altered', 'c09_chunk_byte_altered_not_original', 'c09_missing_middle_chunk', 'c09_missing_middle_chunk_two', 'c09_open_gap', 'decRecord_bad_sum', 'openLoop_gap', 'openLoop_clean_step'],
                 gen=scripts_c09, project=proj_recovery, oracle=oracle_c09, nontrivial=lambda s: len(s) > 6,
                 explanation="corruption detection", assumptions=OS_ASSUMPTIONS),
 })
